@@ -46,7 +46,31 @@ let load_table () =
       close_in ic
   end
 
-let get id = load_table (); Hashtbl.find table id
+(* "N:<hex name>": a zone named directly (fixed-offset names need no data) *)
+let mk_named (name : z list) : zentry =
+  let spec_off = fixed_from_spec name in
+  let sz = lazy (match spec_off with
+    | Some off ->
+      let a = { a_version = Z0; a_times = []; a_idx = []; a_types = [((off, false), Z0)];
+                a_abbr = fixed_abbr_spec off @ [Z0]; a_footer = [] } in
+      Some (szone_of a)
+    | None -> None) in
+  { bytes = [];
+    model = lazy (load_name (fun _ -> None) name);
+    spec = lazy None; sz;
+    wf = lazy (spec_off <> None);
+    changes = lazy [];
+    hint_bt = Z0; hint_mt = Z0 }
+
+let get id =
+  load_table ();
+  match Hashtbl.find_opt table id with
+  | Some e -> e
+  | None ->
+    if String.length id > 2 && String.sub id 0 2 = "N:" then begin
+      let e = mk_named (bytes_of_hex (String.sub id 2 (String.length id - 2))) in
+      Hashtbl.replace table id e; e
+    end else raise Not_found
 
 let show_al (al : alookup) =
   Printf.sprintf "%s %s %s %s" (string_of_z al.al_off) (b2s al.al_dst) (hex_of_bytes al.al_abbr) (show_fields al.al_cs)
@@ -152,6 +176,40 @@ let run_case_inner (a : string array) : string =
     (* S is the spec's own answer; additionally the spec answer must recover t (checked by P-side flag) *)
     out m (match sc with Some c -> show_scl c ^ (if ok_rt then "" else " !roundtrip") | None -> "notwf")
       (sc <> None && inner)
+  | "hbt" ->
+    (* C14: thread the hint the way the implementation's hidden state evolves *)
+    let e = get a.(1) in let t = zi a 2 in
+    let m = with_model e (fun z ->
+      match break_time z e.hint_bt t with
+      | OK (al, h) -> e.hint_bt <- h; show_al al
+      | Err er -> "ERR:" ^ string_of_err er) in
+    let fresh = with_model e (fun z -> show_res (fun (al, _) -> show_al al) (break_time z Z0 t)) in
+    out m fresh (Lazy.force e.wf && in64 t)
+  | "hmt" ->
+    let e = get a.(1) in let cs = fields_of a 2 in
+    let m = with_model e (fun z ->
+      match make_time z e.hint_mt cs with
+      | OK (c, h) -> e.hint_mt <- h; show_cl c
+      | Err er -> "ERR:" ^ string_of_err er) in
+    let fresh = with_model e (fun z -> show_res (fun (c, _) -> show_cl c) (make_time z Z0 cs)) in
+    out m fresh (Lazy.force e.wf && valid_fields cs && in64 cs.fy)
+  | "fbt" ->
+    let e = get a.(1) in let t = zi a 3 in
+    let m = with_model e (fun z -> show_res (fun (al, _) -> show_al al) (break_time z Z0 t)) in
+    out m m (Lazy.force e.wf && in64 t)
+  | "fmt" ->
+    let e = get a.(1) in let cs = fields_of a 3 in
+    let m = with_model e (fun z -> show_res (fun (c, _) -> show_cl c) (make_time z Z0 cs)) in
+    out m m (Lazy.force e.wf && valid_fields cs && in64 cs.fy)
+  | "reload" ->
+    (* an id the data source does not know: the factory returns nullptr *)
+    let ok = (match (try Some (get a.(1)) with Not_found -> None) with
+              | Some e -> (match Lazy.force e.model with OK (Some _) -> true | _ -> false)
+              | None -> false) in
+    let b = b2s ok in
+    let m = Printf.sprintf "ok=%s%s eq=1 calls=1+0 utc=%s name=1" b b (b2s (not ok)) in
+    (* the cache contract holds for every byte string, well-formed or not *)
+    out m m true
   | "chain" ->
     let e = get a.(1) in
     let m = with_model e (fun z ->
